@@ -176,6 +176,15 @@ func exprString(e ast.Expr) string {
 		return exprString(x.Fun) + "(" + strings.Join(args, ", ") + ")"
 	case *ast.IndexExpr:
 		return exprString(x.X) + "[" + exprString(x.Index) + "]"
+	case *ast.SliceExpr:
+		lo, hi := "", ""
+		if x.Low != nil {
+			lo = exprString(x.Low)
+		}
+		if x.High != nil {
+			hi = exprString(x.High)
+		}
+		return exprString(x.X) + "[" + lo + ":" + hi + "]"
 	case *ast.ArrayType:
 		return "[]" + exprString(x.Elt)
 	case *ast.MapType:
